@@ -29,7 +29,7 @@ ASSUMPTIONS = ["gradient error = relative RMS over B=128 paths of the per-path g
 REQUIRED_COUNTERS = ["forward_equal_checks", "logqp_forward_checks", "gradient_ladders", "subset_losses",
                      "neural_reference_ladders", "selectivity_cases", "pairs_ito", "pairs_stratonovich",
                      "forward_list_ts_under_default_f32", "forward_equal_adaptive_checks",
-                     "adjoint_adaptive_gradients"]
+                     "adjoint_adaptive_gradients", "forward_with_adjoint_adaptive_requested"]
 THRESHOLDS = {"slope": 0.2, "final_half": 0.15, "final_one": 0.05, "final_over_first": 0.5, "already_small": 2e-3}
 
 ITO_FWD = ["euler", "milstein", "srk"]
@@ -93,6 +93,8 @@ def run_forward(case):
     lists = rng.random() < 0.4
     cnt["forward_list_ts_under_default_f32"] = int(lists)
     tsx = tsl if lists else ts
+    adj_ad = rng.random() < 0.5
+    cnt["forward_with_adjoint_adaptive_requested"] = int(adj_ad)
     for logqp in (False, True):
         msize = sde.m + (1 if (logqp and cell["noise_type"] == "diagonal") else 0)
 
@@ -102,8 +104,9 @@ def run_forward(case):
         with env.default_dtype(torch.float32 if lists else torch.float64):
             with torch.no_grad():
                 ref = zoo.solve(cell, sde, y0, tsx, dt, bm=mk(), logqp=logqp, extra=True)
+            # (requesting an adaptive BACKWARD solve must not change the fixed-step forward solve)
             out = zoo.solve(cell, sde, y0.clone().requires_grad_(True), tsx, dt, bm=mk(), logqp=logqp, extra=True,
-                            adjoint=True)
+                            adjoint=True, adjoint_adaptive=adj_ad)
         # the same with adaptive stepping (the forward pass of the adjoint is the plain adaptive solve)
         akw = dict(adaptive=True, rtol=1e-3, atol=1e-4, dt_min=1e-4)
         with env.default_dtype(torch.float32 if lists else torch.float64):
